@@ -573,7 +573,11 @@ def gen_run(rng, tier):
         ops.append('run 3 3 %d aniso %s %s' % (rng.randrange(0, 99), hx(rng.uniform(0.15, 0.25)), 'aa'))
         ops.append('run 3 3 %d %s %s %s' % (rng.randrange(1, 99), rng.choice(['lin', 'bl']), hx(rng.uniform(0.2, 0.3)),
                                             ''.join(rng.choice('scma') for _ in range(4))))
-    ops += ['run 4 3 1 iso %s a' % hx(0.3), 'run 2 3 1 iso 0 a', 'bogus']
+    # pole fixture: an axis edge surrounded by more tets than MAX_CELL_SPLIT (ref_split_edge answers REF_INCREASE_LIMIT after
+    # the trial vertex exists: the fourth reject branch of ref_split_pass) and just below the limit (accepted)
+    ops.append('run 5 %d 0 pole %s s' % (rng.randrange(101, 140), hx(rng.uniform(0.4, 0.6))))
+    ops.append('run 5 %d 0 pole %s %s' % (rng.randrange(60, 101), hx(rng.uniform(0.4, 0.6)), rng.choice(['s', 'ss', 'a'])))
+    ops += ['run 4 3 1 iso %s a' % hx(0.3), 'run 2 3 1 iso 0 a', 'run 5 201 0 pole %s s' % hx(0.5), 'bogus']
     return ops
 
 
